@@ -85,6 +85,16 @@ def check(facts, rep, tier, cfg):
             else:
                 ok_s = "request_tcp_channel" in st_calls
                 ok_l = "request_tcp_channel" not in lo_calls and (lo_calls & {"accept", "new", "on", "poll", "into_inner"} or names_in(b, lo))
+                if "/http.rs" in b.file:
+                    # the CONNECT tunnel runs on hyper's Upgraded object (which replays the bytes hyper already buffered), not on the raw socket
+                    raw = lo_calls & {"downcast", "into_inner", "into_parts"}
+                    if "on" not in lo_calls or raw:
+                        ok_l = False
+                        rep.bad("C01.R1", "http-connect-keeps-buffered-bytes", where,
+                                "the HTTP CONNECT tunnel is not bridged on `TokioIo::new(upgraded)` (calls %s): bytes the client sent right behind the "
+                                "CONNECT head, already read by hyper, never reach the target" % sorted(raw or lo_calls)[:5])
+                    else:
+                        rep.ok("C01.R1", "http-connect-keeps-buffered-bytes", where, "bridge on hyper's Upgraded object")
                 if ok_s and ok_l:
                     rep.ok("C01.R1", key, where, "client: requested stream <-> accepted local connection")
                 else:
